@@ -14,6 +14,7 @@ mod alg;
 mod mat;
 mod xform;
 mod proj;
+mod lerp;
 
 fn main() {
     let args: Vec<String> = std::env::args().collect();
@@ -30,6 +31,9 @@ fn main() {
         ("drive", "quat") => xform::drive_quat(rest),
         ("drive", "affine") => xform::drive_affine(rest),
         ("drive", "view") => xform::drive_view(rest),
+        ("replay", "lerp") => lerp::replay(rest),
+        ("drive", "lerp") => lerp::drive_lerp(rest),
+        ("drive", "slerp") => lerp::drive_slerp(rest),
         ("drive", "proj") => proj::drive_proj(rest),
         ("drive", "viewport") => proj::drive_viewport(rest),
         (a, b) => { eprintln!("unknown command {} {}", a, b); std::process::exit(2); }
